@@ -22,7 +22,7 @@ pub struct Case {
     pub tagdef: String,
 }
 
-fn build(c: &Case) -> Ty {
+pub fn build(c: &Case) -> Ty {
     let mut items = vec![];
     let mut k = 0usize;
     let mut mk = |k: &mut usize, in_group: bool| {
